@@ -56,6 +56,17 @@ def _cases(draw, tier):
             v['luq'] = 4
         return {'kind': 'lengths', 'v': v}
     k = pct(draw)
+    if k == 99 or (tier == 'thorough' and k >= 97):
+        # one list with more than a thousand entries (first side, or one hospital listing all)
+        if draw(st.booleans()):
+            v = {'mp': draw(st.sampled_from(['ha', 'hr'])), 'numinst': 1, 'n1': 2, 'n2': 1200,
+                 'pmin': 1001, 'pmax': 1200, 'uq': 1200, 'seed': uni(draw, 0, 9999)}
+        else:
+            v = {'mp': 'hr', 'numinst': 1, 'n1': 1100, 'n2': 1, 'pmin': 1, 'pmax': 1,
+                 'uq': 1100, 'seed': uni(draw, 0, 9999)}
+        if v['mp'] == 'hr':
+            v['twopl'] = True
+        return {'kind': 'wellformed', 'v': v}
     if k < 4:
         # many instances in one run (file naming, per-run state)
         v = draw(genargs.legal_vectors(nmax=(4, 4, 3), numinst_max=1))
@@ -82,7 +93,7 @@ def _cases(draw, tier):
     big = (30, 12, 8) if tier == 'thorough' else (12, 8, 6)
     prior = draw(genargs.prior_runs())
     return {'kind': 'wellformed', 'v': draw(genargs.legal_vectors(nmax=big, numinst_max=4)),
-            'prior': prior}
+            'prior': prior, 'prior_same_dir': draw(st.booleans())}
 
 
 def strategy(tier):
@@ -195,14 +206,20 @@ def check_file(text, v):
 
 def run_case(case):
     v = case['v']
-    genargs.run_prior(case.get('prior'))
     outdir = genargs.fresh_outdir(nested=v['seed'] % 3 == 0)
+    reused = bool(case.get('prior')) and bool(case.get('prior_same_dir'))
+    if reused:
+        # the output directory already holds files 0.txt.. of an earlier, different run
+        p = case['prior']
+        genargs.run_generator(genargs.build_argv(p, outdir), p['seed'])
+    else:
+        genargs.run_prior(case.get('prior'))
     argv = genargs.build_argv(v, outdir)
     status, code, err = genargs.run_generator(argv, v['seed'])
     if status != 'ok':
         raise Violation('legal_rejected:' + v['mp'], 'legal argument vector %r exited with %r: %s'
                         % (argv, code, err.strip()[-160:]))
-    texts = genargs.read_outputs(outdir, v['numinst'])
+    texts = genargs.read_outputs(outdir, v['numinst'], allow_extra=reused)
     lens, ties, uneven = set(), False, False
     for t in texts:
         I, l = check_file(t, v)
@@ -212,6 +229,10 @@ def run_case(case):
     labels = ['mp=' + v['mp'], 'kind=' + case['kind'], 'twopl' if v.get('twopl') else 'one_sided']
     if v['numinst'] >= 10:
         labels.append('numinst>=10')
+    if reused:
+        labels.append('output_dir_reused')
+    if v['pmax'] > 1000 or v['n1'] > 1000:
+        labels.append('list>1000')
     if v.get('n2', v['n1']) >= 60:
         labels.append('n2>=60')
     if case['kind'] == 'lengths':
